@@ -20,6 +20,8 @@ class Use:
         self._line_no: int = line_number
         self.only_list: set[str] = only_list
         self.rename_map: dict[str, str] = rename_map
+        # Module entities that a USE statement without ONLY renamed away
+        self.hidden: set[str] = set()
         if only_list:
             self.only_list: set[str] = {only.lower() for only in only_list}
         if rename_map:
